@@ -76,3 +76,19 @@ Definition convert_address (t : dtables) (c : ctrans) (a : N) (inclusive : bool)
 
 (* the tombstone the emitter writes for unconvertible addresses of attributes *)
 Definition dead_code : N := 4294967295.
+
+(* the address attributes of DIEs (src/module/debug/mod.rs, the closure handed to gimli's `write::Dwarf::from`): 0 and the
+   tombstone pass through, an address without image becomes the tombstone *)
+Definition convert_attr_address (t : dtables) (c : ctrans) (a : N) : N :=
+  if (a =? 0) || (a =? dead_code) then a
+  else match convert_address t c a true with Some x => x | None => dead_code end.
+
+(* convert_high_pc (src/module/debug/dwarf.rs): a DIE with DW_AT_low_pc = address and DW_AT_high_pc = unsigned offset gets
+   high_pc := image(low + offset) - image(low) (saturating) when both have an image; otherwise the attribute keeps the value
+   gimli copied, i.e. the input offset.  Returns the (low_pc, high_pc) pair a reader of the output sees. *)
+Definition convert_subprogram (t : dtables) (c : ctrans) (low off : N) : N * N :=
+  (convert_attr_address t c low,
+   match convert_address t c low true, convert_address t c (low + off) true with
+   | Some l, Some h => h - l
+   | _, _ => off
+   end).
